@@ -1,4 +1,6 @@
-import ActixModel.Proofs.Ws
+import ActixModel.Proofs.WsCodec
+import ActixModel.Proofs.WsGrammar
+import ActixModel.Proofs.WsHandshake
 /-
 C14 — WebSocket handshake and frame codec: round trip, segmentation independence, strictness.
 
@@ -6,6 +8,7 @@ Model: `ActixModel/Model/Ws.lean` (proto.rs, mask.rs, frame.rs, codec.rs as code
 fix) and `ActixModel/Model/WsHandshake.lean`.  Every theorem quantifies over all buffers / keys /
 payloads / alignments / `max_size` values; nothing is bounded.
 -/
+set_option linter.unusedSimpArgs false
 namespace ActixModel.Ws.C14
 open ActixModel.Util ActixModel.Ws
 
@@ -54,6 +57,9 @@ theorem C14_max_size (al : Nat) (src : Bytes) (server : Bool) (maxSize : Nat)
       cases m.mask <;> simp <;> omega
     omega
 
+example : parse 0 [0x81, 0x02, 0x68, 0x69, 0xff] false 2 = (.frame true .text (some [0x68, 0x69]), [0xff]) := by
+  decide +kernel
+
 /-! ## frame.rs: strictness decided by the first two bytes -/
 
 /-- **C14_strict_masking**: a frame whose MASK bit does not fit the receiving role is refused as
@@ -71,6 +77,8 @@ theorem C14_strict_masking (al : Nat) (src : Bytes) (server : Bool) (maxSize : N
       cases h : ((src.getD 1 0 &&& 0x80) != 0) <;> simp_all
     rw [parse_of_meta_err al src true maxSize _ (hh.1 hm rfl)]; rfl
 
+example : (2 ≤ ([0x81, 0x01] : Bytes).length) ∧ (([0x81, 0x01] : Bytes).getD 1 0 &&& 0x80 != 0) ≠ true := by decide
+
 /-- **C14_strict_opcode**: opcodes 3–7 and 11–15 are refused as soon as two bytes are there. -/
 theorem C14_strict_opcode (al : Nat) (src : Bytes) (server : Bool) (maxSize : Nat) (h2 : 2 ≤ src.length)
     (hmask : ((src.getD 1 0 &&& 0x80) != 0) = server)
@@ -86,6 +94,9 @@ theorem C14_strict_opcode (al : Nat) (src : Bytes) (server : Bool) (maxSize : Na
     simpa using this
   rw [parse_of_meta_err al src server maxSize _ (hh.2.2 hmask hbad)]
 
+example : (([0x83, 0x80] : Bytes).getD 1 0 &&& 0x80 != 0) = true ∧
+    (([0x83, 0x80] : Bytes).getD 0 0 &&& 0x0F).toNat ∉ [0, 1, 2, 8, 9, 10] := by decide
+
 /-! ## frame.rs: prefix stability -/
 
 /-- **C14_prefix_stable**: an answer other than "need more" is final: more bytes behind the
@@ -97,4 +108,356 @@ theorem C14_prefix_stable (al al' : Nat) (a b : Bytes) (server : Bool) (maxSize 
       (parse al' (a ++ b) server maxSize).2 = (parse al a server maxSize).2 ++ b) :=
   parse_append al al' a b server maxSize hne
 
+example : (parse 0 [0x81, 0x00] false 10).1 ≠ .needMore := by decide +kernel
+
+/-! ## round trip -/
+
+/-- **C14_roundtrip_frame**: whatever `write_message` writes — any opcode, FIN bit, key, payload
+of any length (the 125/126 and 65535/65536 encoding boundaries are cases of the proof), any
+alignment of either buffer, anything behind it — `parse` at the peer role reads back exactly:
+same FIN, same opcode, same payload, and leaves exactly what was behind the frame.
+Side conditions: the payload fits `max_size`, control payloads are ≤ 125 (otherwise see
+`C14_strict_control_long`), and lengths are < 2^63 (no Rust slice is longer). -/
+theorem C14_roundtrip_frame (al al' : Nat) (payload rest : Bytes) (op : OpCode) (fin : Bool) (key : Option Mask)
+    (maxSize : Nat) (hop : op ≠ .bad) (hn : payload.length < 2 ^ 63) (hmx : payload.length ≤ maxSize)
+    (hctl : op = .ping ∨ op = .pong ∨ op = .close → payload.length ≤ 125) :
+    parse al' (writeMessage al payload op fin key ++ rest) key.isSome maxSize =
+      (.frame fin op (if payload.length = 0 then none else some payload), rest) :=
+  parse_written al al' payload rest op fin key maxSize hop hn hmx hctl
+
+example : ∃ p : Bytes, p.length = 126 ∧ p.length ≤ 65536 := ⟨List.replicate 126 0, by simp, by simp⟩
+
+/-- **C14_roundtrip_message**: a message encoded by a codec of one role decodes at a codec of
+the other role (whose read-side flag is in step with the sender's write-side flag) to the same
+message, and the two stay in step. -/
+theorem C14_roundtrip_message (ce cd : Codec) (al al' : Nat) (key : Mask) (m : Message) (bs rest : Bytes)
+    (ce' : Codec) (f : Frame)
+    (hl : Linked ce cd) (he : ce.encode al key m = (.ok bs, ce')) (hf : toFrame m = some f)
+    (hmx : m.wirePayload.length ≤ cd.maxSize) (hn : m.wirePayload.length < 2 ^ 63)
+    (hctl : m.isControl = true → m.wirePayload.length ≤ 125)
+    (hcode : ∀ r, m = .close (some r) → r.code < 65536) :
+    ∃ cd', cd.decode al' (bs ++ rest) = (.frame f, cd', rest) ∧ Linked ce' cd' :=
+  decode_encode ce cd al al' key m bs rest ce' f hl he hf hmx hn hctl hcode
+
+example : Linked { server := false } { server := true } ∧
+    (Codec.encode { server := false } 0 ⟨1, 2, 3, 4⟩ (.text [0x68])).1 = .ok [0x81, 0x81, 1, 2, 3, 4, 0x69] :=
+  ⟨⟨rfl, rfl⟩, by rfl⟩
+
+/-- **C14_roundtrip**: every sequence of messages offered to a fresh codec of one role — with
+any masking keys — is read by a fresh codec of the other role as exactly the accepted messages,
+in order, nothing left over; both roles.  (`accepted` leaves out only what `encode` itself
+refused: ill-bracketed continuation items.) -/
+theorem C14_roundtrip (al al' : Nat) (keys : Nat → Mask) (senderIsServer : Bool) (maxSize : Nat) (msgs : List Message)
+    (hok : ∀ m ∈ (encodeSeq al keys { server := senderIsServer } 0 msgs).2.1,
+      m.wirePayload.length ≤ maxSize ∧ m.wirePayload.length < 2 ^ 63 ∧
+      (m.isControl = true → m.wirePayload.length ≤ 125) ∧ (∀ r, m = .close (some r) → r.code < 65536)) :
+    ∃ cd', drain { server := !senderIsServer, maxSize := maxSize } al' (encodeSeq al keys { server := senderIsServer } 0 msgs).1 =
+      ((encodeSeq al keys { server := senderIsServer } 0 msgs).2.1.filterMap toFrame, .needMore, cd', []) :=
+  let ⟨cd', h, _, _⟩ := roundtrip_seq al al' keys { server := senderIsServer } { server := !senderIsServer, maxSize := maxSize }
+    0 msgs ⟨rfl, rfl⟩ hok
+  ⟨cd', h⟩
+
+/-! ## the parser accepts exactly the frame grammar
+
+`Wire` / `Wire.bytes` (`Proofs/WsGrammar.lean`) write RFC 6455 §5.2 down independently of the
+parser: FIN, RSV1-3, opcode nibble | MASK, 7-bit code | 0, 2 or 8 extension bytes | key | masked
+payload; any of the three length forms that can hold the length (`Wire.Valid`). -/
+
+/-- **C14_grammar_complete**: what `parse` answers on *every* frame of the grammar followed by
+anything — whatever the RSV bits, whichever admissible length form, any key: too long for
+`max_size` ⇒ `Overflow`; Ping/Pong > 125 ⇒ `InvalidLength`; Close > 125 ⇒ bare Close (O3);
+otherwise exactly the frame's FIN, opcode and payload, leaving exactly what followed.
+(`C14_roundtrip_frame` is the special case of the frames `write_message` produces.) -/
+theorem C14_grammar_complete (al : Nat) (w : Wire) (hv : w.Valid) (rest : Bytes) (maxSize : Nat)
+    (hop : OpCode.ofByte (UInt8.ofNat w.opc) ≠ .bad) (hn : w.payload.length < 2 ^ 63) :
+    parse al (w.bytes ++ rest) w.key.isSome maxSize =
+      let op := OpCode.ofByte (UInt8.ofNat w.opc)
+      if w.payload.length > maxSize then (.err .overflow, rest)
+      else if w.payload.length = 0 then (.frame w.fin op none, rest)
+      else if (op = .ping ∨ op = .pong) ∧ w.payload.length > 125 then (.err (.invalidLength w.payload.length), rest)
+      else if op = .close ∧ w.payload.length > 125 then (.frame true .close none, rest)
+      else (.frame w.fin op (some w.payload), rest) :=
+  parse_wire al w hv rest maxSize hop hn
+
+example : (⟨true, 5, 1, some ⟨1, 2, 3, 4⟩, .ext64, [0x68, 0x69]⟩ : Wire).Valid := by
+  refine ⟨by decide, by decide, ?_⟩; simp [LenForm.fits]
+
+/-- **C14_grammar_sound**: whatever `parse` delivers was, byte for byte, a frame of the grammar
+at the head of the buffer — masked iff the receiver is a server, with one of the six defined
+opcodes, payload within `max_size` — and the rest is what followed it.  With
+`C14_grammar_complete` (which fixes the delivered FIN / opcode / payload as a function of that
+frame): the parser accepts exactly the grammar and reads each frame in exactly one way. -/
+theorem C14_grammar_sound (al : Nat) (src : Bytes) (server : Bool) (maxSize : Nat) (fin : Bool) (op : OpCode)
+    (pl : Option Bytes) (rest : Bytes) (h : parse al src server maxSize = (.frame fin op pl, rest)) :
+    ∃ w : Wire, w.Valid ∧ src = w.bytes ++ rest ∧ w.key.isSome = server ∧
+      OpCode.ofByte (UInt8.ofNat w.opc) ≠ .bad ∧ w.payload.length ≤ maxSize :=
+  parse_sound al src server maxSize fin op pl rest h
+
+/-! ## segmentation independence -/
+
+/-- **C14_segmentation**: however a byte stream is cut into reads (any number of segments, empty
+ones included, any buffer placement), a fresh connection delivers the same frames, ends in the
+same error or — if alive — with the same flags and the same undecoded rest as when the whole
+stream arrives in one read. -/
+theorem C14_segmentation (c : Codec) (al al' : Nat) (segs : List Bytes) :
+    Sim (Conn.feedAll { codec := c } al segs) (Conn.feed { codec := c } al' segs.flatten) :=
+  feedAll_eq_feed { codec := c } al al' segs (quiescent_init c)
+
+/-- the same for two arbitrary segmentations of the same bytes -/
+theorem C14_segmentation_any (c : Codec) (al al' : Nat) (segs segs' : List Bytes) (h : segs.flatten = segs'.flatten) :
+    (Conn.feedAll { codec := c } al segs).1 = (Conn.feedAll { codec := c } al' segs').1 ∧
+    (Conn.feedAll { codec := c } al segs).2.dead = (Conn.feedAll { codec := c } al' segs').2.dead := by
+  have h1 := C14_segmentation c al 0 segs
+  have h2 := C14_segmentation c al' 0 segs'
+  rw [h] at h1
+  exact ⟨h1.1.trans h2.1.symm, h1.2.1.trans h2.2.1.symm⟩
+
+/-! ## codec.rs: the continuation state machine -/
+
+/-- **C14_strict_control_fragmented**: a control frame with FIN = 0 is refused. -/
+theorem C14_strict_control_fragmented (c : Codec) (al : Nat) (src rest : Bytes) (op : OpCode) (pl : Option Bytes)
+    (hp : parse al src c.server c.maxSize = (.frame false op pl, rest))
+    (hop : op = .close ∨ op = .ping ∨ op = .pong) :
+    (c.decode al src).1 = .err (.continuationFragment op) := by
+  unfold Codec.decode; rw [hp]; unfold Codec.onFrame
+  rcases hop with h | h | h <;> subst h <;> rfl
+
+example : parse 0 [0x09, 0x00] false 10 = (.frame false .ping none, []) := by decide
+
+/-- **C14_strict_control_long**: a complete Ping/Pong longer than 125 bytes (and within
+`max_size`) is refused; a complete Close longer than 125 bytes is delivered as a bare
+`Close(None)` with FIN forced — as coded (DESIGN §6 O3), stated here so that it is visible. -/
+theorem C14_strict_control_long (al : Nat) (src : Bytes) (server : Bool) (maxSize : Nat) (m : Meta)
+    (hm : parseMetadata src server = .ok m) (hfit : m.idx + m.length ≤ src.length) (hsz : src.length < 2 ^ 63)
+    (hlong : 125 < m.length) (hmx : m.length ≤ maxSize) :
+    ((m.op = .ping ∨ m.op = .pong) → (parse al src server maxSize).1 = .err (.invalidLength m.length)) ∧
+    (m.op = .close → (parse al src server maxSize).1 = .frame true .close none) := by
+  have hb := parseMetadata_ok_bounds src server m hm
+  rw [parse_of_meta al src server maxSize m hm]
+  have c1 : ¬ usizeMax < m.idx + m.length := by
+    unfold usizeMax; omega
+  have c2 : ¬ src.length < m.idx + m.length := by omega
+  have c3 : ¬ m.length > maxSize := by omega
+  have c4 : ¬ m.length = 0 := by omega
+  simp only [c1, c2, c3, c4, if_false]
+  constructor
+  · intro h; simp [h, hlong]
+  · intro h; simp [h, hlong]
+
+example : ∃ m, parseMetadata ([0x89, 126, 0, 126] ++ List.replicate 126 0) false = .ok m ∧ m.op = .ping ∧ 125 < m.length ∧
+    m.idx + m.length ≤ ([0x89, 126, 0, 126] ++ List.replicate 126 (0 : UInt8)).length :=
+  ⟨⟨4, true, .ping, 126, none⟩, by decide +kernel, rfl, by decide, by decide +kernel⟩
+
+/-- **C14_strict_cont_without_start**: a Continue frame (final or not) outside a fragmented
+message is refused. -/
+theorem C14_strict_cont_without_start (c : Codec) (al : Nat) (src rest : Bytes) (fin : Bool) (pl : Option Bytes)
+    (hp : parse al src c.server c.maxSize = (.frame fin .continue pl, rest)) (hc : c.cont = false) :
+    (c.decode al src).1 = .err .continuationNotStarted := by
+  unfold Codec.decode; rw [hp]; unfold Codec.onFrame
+  cases fin <;> simp [hc]
+
+example : parse 0 [0x80, 0x00] false 10 = (.frame true .continue none, []) := by decide +kernel
+
+/-- **C14_strict_start_inside**: a non-final Text/Binary frame inside a fragmented message is
+refused.  (A *final* Text/Binary frame there is delivered as an ordinary message: interleaved
+unfragmented data frames are accepted by the code; reported, DESIGN C14 P.) -/
+theorem C14_strict_start_inside (c : Codec) (al : Nat) (src rest : Bytes) (op : OpCode) (pl : Option Bytes)
+    (hp : parse al src c.server c.maxSize = (.frame false op pl, rest)) (hc : c.cont = true)
+    (hop : op = .text ∨ op = .binary) :
+    (c.decode al src).1 = .err .continuationStarted := by
+  unfold Codec.decode; rw [hp]; unfold Codec.onFrame
+  rcases hop with h | h <;> subst h <;> simp [hc]
+
+example : parse 0 [0x01, 0x01, 0x61] false 10 = (.frame false .text (some [0x61]), []) := by decide +kernel
+
+/-- O3 (DESIGN §6), kernel-checked on the model: a Close frame with a 126-byte payload is not
+refused but delivered as `Close(None)`. -/
+theorem witness_O3_close_long_morphs :
+    (Codec.decode { server := false } 0 ([0x88, 126, 0, 126] ++ List.replicate 126 0x41)).1 = .frame (.close none) := by
+  decide +kernel
+
+/-- kernel-checked on the model: inside a fragmented message (CONTINUATION set) a *final* Text
+frame is delivered as an ordinary message and the flag stays set (interleaved unfragmented data
+frames are accepted; DESIGN C14 P). -/
+theorem witness_unfragmented_inside_fragmented :
+    Codec.decode { server := false, cont := true } 0 [0x81, 0x01, 0x78] =
+      (.frame (.text [0x78]), { server := false, cont := true }, []) := by
+  decide +kernel
+
+/-- kernel-checked on the model: the F4 replay (server role, 14-byte header announcing 2^40 bytes,
+`max_size` 1024, no payload) is refused at once. -/
+theorem witness_F4_refused :
+    parse 0 [0x82, 0xff, 0, 0, 1, 0, 0, 0, 0, 0, 1, 2, 3, 4] true 1024 =
+      (.err .overflow, [0x82, 0xff, 0, 0, 1, 0, 0, 0, 0, 0, 1, 2, 3, 4]) := by
+  decide +kernel
+
+/-- **C14_cont_bracketed**: over *every* byte stream and every segmentation, the delivered
+frames are well bracketed — `First… (Continue…)* Last` never nested, never a `Continue`/`Last`
+outside — the codec's CONTINUATION flag is exactly "inside a fragmented message", role and
+`max_size` never change, and no delivered payload exceeds `max_size`. -/
+theorem C14_cont_bracketed (c : Codec) (al : Nat) (segs : List Bytes) :
+    bracket c.cont (Conn.feedAll { codec := c } al segs).1 = some (Conn.feedAll { codec := c } al segs).2.codec.cont ∧
+    (∀ f ∈ (Conn.feedAll { codec := c } al segs).1, f.dataLen ≤ c.maxSize) := by
+  have key : ∀ (segs : List Bytes) (s : Conn),
+      bracket s.codec.cont (Conn.feedAll s al segs).1 = some (Conn.feedAll s al segs).2.codec.cont ∧
+      (Conn.feedAll s al segs).2.codec.maxSize = s.codec.maxSize ∧
+      (∀ f ∈ (Conn.feedAll s al segs).1, f.dataLen ≤ s.codec.maxSize) := by
+    intro segs
+    induction segs with
+    | nil => intro s; simp [Conn.feedAll, bracket]
+    | cons x xs ih =>
+      intro s
+      simp only [Conn.feedAll]
+      have IH := ih (s.feed al x).2
+      cases hd : s.dead with
+      | some e =>
+        rw [feed_dead s al x e hd] at IH ⊢
+        simpa using IH
+      | none =>
+        rw [feed_live s al x hd] at IH ⊢
+        have D := drain_inv s.codec 0 (s.buf ++ x)
+        simp only [] at IH ⊢
+        refine ⟨?_, by rw [IH.2.1, D.2.1], ?_⟩
+        · rw [bracket_append, D.2.2.2.1]; exact IH.1
+        · intro f hf
+          rcases List.mem_append.1 hf with h | h
+          · exact D.2.2.2.2 f h
+          · have := IH.2.2 f h; rw [D.2.1] at this; exact this
+  have := key segs { codec := c }
+  exact ⟨this.1, this.2.2⟩
+
+/-- **C14_encode_bracketed**: on the write side too: whatever message sequence the application
+offers, the frames that go out are well bracketed, and W_CONTINUATION is exactly "inside". -/
+theorem C14_encode_bracketed (al : Nat) (keys : Nat → Mask) (ce : Codec) (msgs : List Message) :
+    bracket ce.wcont ((encodeSeq al keys ce 0 msgs).2.1.filterMap toFrame) = some (encodeSeq al keys ce 0 msgs).2.2.wcont :=
+  encodeSeq_bracket al keys ce 0 msgs
+
+/-- **C14_progress**: a delivered frame consumes at least its two header bytes, and "need
+more" consumes nothing — the read loop terminates and its guard never fires. -/
+theorem C14_progress (c : Codec) (al : Nat) (src : Bytes) (c' : Codec) (rest : Bytes) :
+    (∀ f, c.decode al src = (.frame f, c', rest) → rest.length + 2 ≤ src.length) ∧
+    (c.decode al src = (.needMore, c', rest) → c' = c ∧ rest = src) :=
+  ⟨fun f h => decode_frame_lt c al src f c' rest h, fun h => decode_needMore c al src c' rest h⟩
+
 end ActixModel.Ws.C14
+
+/-! ## handshake -/
+namespace ActixModel.WsHandshake.C14
+open ActixModel.Util ActixModel.WsHandshake
+
+/-- "well-formed upgrade request" as the code reads it: GET; the first `Upgrade` value is visible
+ASCII and contains `websocket` case-insensitively; the first `Connection` value likewise contains
+`upgrade`; the first `Sec-WebSocket-Version` value is `13`, `8` or `7`; a `Sec-WebSocket-Key`
+header is present.  (Laxer than RFC 6455 §4.2.1 — substring instead of token match, versions 8/7,
+any key; DESIGN §6 O4.) -/
+def WellFormed (req : Req) : Prop :=
+  req.method = "GET" ∧
+  (∃ v, getFirst "upgrade" req.headers = some v ∧ toStrOk v = true ∧ bWebsocket <:+: v.map asciiLower) ∧
+  (∃ v, getFirst "connection" req.headers = some v ∧ toStrOk v = true ∧ bUpgrade <:+: v.map asciiLower) ∧
+  (∃ v, getFirst "sec-websocket-version" req.headers = some v ∧ (v = b13 ∨ v = b8 ∨ v = b7)) ∧
+  (∃ v, getFirst "sec-websocket-key" req.headers = some v)
+
+/-- **C14_handshake_iff**: the handshake is accepted exactly for well-formed upgrade requests. -/
+theorem C14_handshake_iff (req : Req) : verifyHandshake req = none ↔ WellFormed req := by
+  unfold verifyHandshake WellFormed connUpgrade containsKey valueContains
+  by_cases hm : req.method = "GET"
+  · simp only [hm, ne_eq, not_true_eq_false, if_false, true_and]
+    cases hu : getFirst "upgrade" req.headers with
+    | none => simp
+    | some u =>
+      cases hc : getFirst "connection" req.headers with
+      | none => simp; split <;> simp
+      | some cv =>
+        cases hv : getFirst "sec-websocket-version" req.headers with
+        | none => simp; repeat' split
+                  all_goals simp
+        | some vv =>
+          cases hk : getFirst "sec-websocket-key" req.headers with
+          | none => simp; repeat' split
+                    all_goals simp
+          | some kv =>
+            simp only [Option.some.injEq, exists_eq_left', Option.isSome_some, Bool.not_true, Bool.false_eq_true,
+              if_false, exists_const, and_true]
+            by_cases h1 : (toStrOk u && containsSub bWebsocket (u.map asciiLower)) = true
+            · by_cases h2 : (toStrOk cv && containsSub bUpgrade (cv.map asciiLower)) = true
+              · by_cases h3 : (vv == b13 || vv == b8 || vv == b7) = true
+                · have h1' := h1; have h2' := h2; have h3' := h3
+                  simp only [Bool.and_eq_true, containsSub_iff] at h1' h2'
+                  simp only [Bool.or_eq_true, beq_iff_eq] at h3'
+                  simp only [h1, h2, h3, Bool.not_true, Bool.false_eq_true, if_false, true_iff]
+                  exact ⟨h1', h2', by rcases h3' with (h | h) | h <;> simp [h]⟩
+                · have h3' := h3
+                  simp only [Bool.or_eq_true, beq_iff_eq, not_or] at h3'
+                  simp only [h1, h2, h3, Bool.not_true, Bool.not_false, Bool.false_eq_true, if_false, if_true]
+                  simp only [reduceCtorEq, false_iff, not_and]
+                  intro _ _ h; rcases h with h | h | h <;> simp_all
+              · have h2' := h2
+                simp only [Bool.and_eq_true, containsSub_iff] at h2'
+                simp only [h1, h2, Bool.not_true, Bool.not_false, Bool.false_eq_true, if_false, if_true]
+                simp only [reduceCtorEq, false_iff, not_and]
+                intro _ h; exact absurd h h2'
+            · have h1' := h1
+              simp only [Bool.and_eq_true, containsSub_iff] at h1'
+              simp only [h1, Bool.not_false, if_true]
+              simp only [reduceCtorEq, false_iff, not_and]
+              intro h; exact absurd h h1'
+  · simp [hm]
+
+/-- O4 (DESIGN §6), kernel-checked on the model: this request is accepted although its
+`Upgrade`/`Connection` values are not the tokens `websocket`/`upgrade`, its version is 7 and its
+key is empty. -/
+theorem witness_O4_lenient_handshake :
+    verifyHandshake ⟨"GET", [("upgrade", [120] ++ bWebsocket ++ [120]),
+      ("connection", [110, 111, 116] ++ bUpgrade ++ [97, 98, 108, 101]),
+      ("sec-websocket-version", [55]), ("sec-websocket-key", [])]⟩ = none := by decide
+
+/-- **C14_handshake_order**: the refusals come in the coded order — each error is returned
+exactly when all earlier checks pass and its own fails. -/
+theorem C14_handshake_order (req : Req) :
+    (verifyHandshake req = some .getMethodRequired ↔ req.method ≠ "GET") ∧
+    (verifyHandshake req = some .badWebsocketKey →
+      req.method = "GET" ∧ containsKey "sec-websocket-version" req.headers = true ∧
+      containsKey "sec-websocket-key" req.headers = false) := by
+  unfold verifyHandshake
+  constructor
+  · by_cases hm : req.method = "GET"
+    · simp only [hm, ne_eq, not_true_eq_false, if_false, iff_false]
+      repeat' split
+      all_goals simp
+    · simp [hm]
+  · by_cases hm : req.method = "GET"
+    · simp only [hm, ne_eq, not_true_eq_false, if_false, true_and]
+      repeat' split
+      all_goals simp_all
+    · simp [hm]
+
+/-- **C14_handshake_accept**: an accepted handshake is answered with status 101, `Upgrade:
+websocket`, connection type upgrade, and `Sec-WebSocket-Accept = base64(sha1(key ++ GUID))` of the
+first key value — always 28 characters. -/
+theorem C14_handshake_accept (req : Req) (r : Resp) (h : handshake req = .ok r) :
+    verifyHandshake req = none ∧ r.status = 101 ∧ r.upgrade = "websocket" ∧ r.connectionUpgrade = true ∧
+    r.accept = b64Encode (sha1 ((getFirst "sec-websocket-key" req.headers).getD [] ++ wsGuid)) ∧
+    r.accept.length = 28 := by
+  unfold handshake at h
+  cases hv : verifyHandshake req with
+  | some e => rw [hv] at h; simp at h
+  | none =>
+    rw [hv] at h
+    simp only [Except.ok.injEq] at h
+    subst h
+    exact ⟨rfl, rfl, rfl, rfl, rfl, hashKey_length _⟩
+
+example : (handshake ⟨"GET", [("upgrade", bWebsocket), ("connection", bUpgrade), ("sec-websocket-version", b13),
+    ("sec-websocket-key", [97])]⟩).toBool = true := by decide +kernel
+
+/-- **C14_base64_roundtrip**: the Base64 used for the accept key is injective — a strict decoder
+recovers the 20 hash bytes (and any other byte string) from it. -/
+theorem C14_base64_roundtrip (bs : Bytes) : b64Decode (b64Encode bs) = some bs := b64_roundtrip bs
+
+/-- RFC 6455 §1.3 sample key, evaluated by the kernel on the model's SHA-1 + Base64. -/
+theorem witness_rfc6455_sample_accept :
+    hashKey [100, 71, 104, 108, 73, 72, 78, 104, 98, 88, 66, 115, 90, 83, 66, 117, 98, 50, 53, 106, 90, 81, 61, 61] =
+      [115, 51, 112, 80, 76, 77, 66, 105, 84, 120, 97, 81, 57, 107, 89, 71, 122, 122, 104, 90, 82, 98, 75, 43, 120, 79, 111, 61] := by
+  decide +kernel
+
+end ActixModel.WsHandshake.C14
